@@ -97,6 +97,7 @@ var (
 	keysMid   = [][]byte{{}, []byte("a"), []byte("a\xff"), []byte("b"), []byte("\xff\xff")} // every shape once
 	keysSmall = [][]byte{{}, []byte("a"), []byte("a\xff"), []byte("b")}
 	keysTiny  = [][]byte{{}, []byte("a"), []byte("a\xff")}
+	keysMacro = [][]byte{[]byte("a"), []byte("\xff\xff")} // one key that sorts before most fillers, one after
 )
 
 func plan(r *vk.Run) []*cfg {
@@ -111,6 +112,15 @@ func plan(r *vk.Run) []*cfg {
 	add := func(be *backend, keys, vals [][]byte, variants, depth, merge, workers int) {
 		out = append(out, &cfg{name: be.name, be: be, keys: keys, vals: vals, variants: variants, depth: depth, maxBatch: 3, mergeEvery: merge, workers: workers})
 	}
+	// macro searches: one step adds N filler operations to the open batch, or N filler keys to the store,
+	// N around the thresholds of sort.Slice (12), typical node / page fan-outs and buffer sizes. They bring
+	// [batch op on k; N fillers; batch op on k; Write|WriteSync|Commit] and [N keys in the store; ...] within
+	// depth 4. A history must contain a fill letter to be completed here (the rest is the plain searches').
+	macro := func(be *backend, keys [][]byte, variants, depth int, fills, dbFills []int, merge int) {
+		out = append(out, &cfg{name: be.name + "/macro", be: be, keys: keys, vals: two, variants: variants, depth: depth, maxBatch: 3,
+			mergeEvery: merge, fills: fills, dbFills: dbFills, maxFills: 1})
+	}
+	allFills := []int{11, 12, 13, 16, 31, 64, 257}
 	pmem := prefixBackend(mem, "p", true)
 	pmemFF := prefixBackend(mem, "p\xff", true)
 	pmemAlone := prefixBackend(mem, "p", false)
@@ -126,6 +136,8 @@ func plan(r *vk.Run) []*cfg {
 		add(badger, keysTiny, two, 1, 3, 40, 0)
 		add(prefixBackend(ldb, "p", true), keysSmall, two, 1, 2, 20, 0)
 		add(prefixBackend(badger, "p", true), keysTiny, two, 1, 2, 20, 0)
+		macro(mem, keysMacro, 3, 4, allFills, []int{13, 64, 257}, 100)
+		macro(bolt, keysMacro, 3, 4, allFills, []int{13, 64, 257}, 100)
 	} else {
 		add(mem, keysFull, two, 3, 4, 400, 0)
 		add(pmem, keysFull, two, 3, 3, 100, 0)
